@@ -39,6 +39,11 @@ func HandleCommonErrors(w http.ResponseWriter, r *http.Request, err error) {
 	switch {
 	case errors.Is(err, postgres.ErrTooManyClient{}):
 		api.WriteErrorResponse(w, http.StatusServiceUnavailable, api.ErrorInternal, err)
+	case errors.Is(err, storagecommon.ErrInvalidQuery{}) ||
+		errors.Is(err, ledger.ErrMissingFeature{}):
+		// an invalid query, or a read that needs a disabled feature, is a client error
+		// whichever handler forwarded the query
+		api.BadRequest(w, ErrValidation, err)
 	case errors.Is(err, ledgercontroller.ErrSchemaNotSpecified{}):
 		api.BadRequest(w, ErrSchemaNotSpecified, err)
 	case errors.Is(err, ledgercontroller.ErrSchemaNotFound{}):
